@@ -3,6 +3,7 @@ package streamfilter
 import (
 	internaltypes "lunar/engine/streams/internal-types"
 	publictypes "lunar/engine/streams/public-types"
+	"lunar/engine/utils"
 
 	"github.com/rs/zerolog/log"
 )
@@ -59,8 +60,16 @@ func (node *FilterNode) isStatusCodeQualified(
 		return true
 	}
 
+	// The response walk of an early response (a processor answered the request) runs before any
+	// response exists: a status code filter cannot be evaluated, the flow does not qualify.
+	response := APIStream.GetResponse()
+	if utils.IsInterfaceNil(response) {
+		log.Trace().Msgf("No response to take a status code from, Flow: %s not qualified", flow.GetName())
+		return false
+	}
+
 	for _, statusCode := range allowedStatusCodes {
-		if statusCode == APIStream.GetResponse().GetStatus() {
+		if statusCode == response.GetStatus() {
 			log.Trace().Msgf("Status code is qualified for Flow: %s", flow.GetName())
 			return true
 		}
